@@ -15,7 +15,8 @@ Model of the curve kernels of ezdxf (property C13), core Lean only, exact arithm
     `signed_bulge_radius` is translated into Gen.
 
 The model copies the code, quirks included:
-  * `find_span` returns `count - 1` for every `u >= knots[count]` even if that span is empty (F13);
+  * `find_span` walks back from span `count - 1` to the last non-empty span for `u >= knots[count]`
+    (the code after fix 8d57f80c6; before it returned `count - 1` even if that span was empty, F13);
   * `knots[max(0, span + 1 - j)]` is `kget knots (span + 1 - j)` with truncated `Nat` subtraction;
   * the binary search is only taken when `knots[p] == 0.0`;
   * the linear search returns -1 for `u < knots[0]` (hence `Int`).
@@ -142,6 +143,10 @@ def choose : Nat → Nat → Nat
   | 0, _ + 1 => 0
   | n + 1, k + 1 => choose n k + choose n (k + 1)
 
+def factorial : Nat → Nat
+  | 0 => 1
+  | n + 1 => (n + 1) * factorial n
+
 /-- Bernstein polynomial `B_{i,n}(t) = C(n,i) t^i (1-t)^(n-i)` -/
 def bernstein (n i : Nat) (t : Rat) : Rat := (choose n i : Rat) * t ^ i * (1 - t) ^ (n - i)
 
@@ -178,11 +183,19 @@ def linearSearch (a : List Rat) (u : Rat) (count span : Nat) : Nat :=
 termination_by count - span
 decreasing_by omega
 
+/-- `while span > p and knots[span] >= knots[count]: span -= 1` (returns the final `span`): walks back from
+    the last span to the last NON-EMPTY one (fix 8d57f80c6 of finding F13) -/
+def backSearch (knots : List Rat) (p count : Nat) : Nat → Nat
+  | 0 => 0
+  | span + 1 =>
+    if span + 1 > p ∧ kget knots count ≤ kget knots (span + 1) then backSearch knots p count span else span + 1
+
 /-- `Basis.find_span(u)`; the result can be -1 (linear search, `u < knots[0]`) -/
 def findSpan (knots : List Rat) (order count : Nat) (u : Rat) : Int :=
-  if kget knots count ≤ u then (count : Int) - 1            -- special case: u >= knots[count]
+  let p := order - 1
+  if kget knots count ≤ u then                               -- special case: u >= knots[count]
+    if count = 0 then -1 else (backSearch knots p count (count - 1) : Int)
   else
-    let p := order - 1
     if kget knots p = 0 then (bisectRight knots u p count : Int) - 1
     else (linearSearch knots u count 0 : Int) - 1
 
@@ -259,6 +272,17 @@ def coxDeBoor (U : List Rat) (u : Rat) (p i : Nat) : Rat :=
     curve takes at the end of the domain) -/
 def spanPiece (U : List Rat) (u : Rat) (s p i : Nat) : Rat :=
   cdb U u (fun i => if i = s then 1 else 0) p i
+
+/-- proof support: the `q+1` polynomial pieces of degree `q` that are non zero on span `s`
+    (what `N[0..q]` holds after stage `q` of A2.2) -/
+def pieceList (U : List Rat) (u : Rat) (s q : Nat) : List Rat :=
+  (List.range' 0 (q + 1)).map (fun r => spanPiece U u s q (s - q + r))
+
+/-- proof support: first summand of the Cox - de Boor recursion for `N_{a+r, q+1}` (what `saved`
+    holds when the inner loop of A2.2 reaches position `r`) -/
+def firstTerm (U : List Rat) (u : Rat) (s q a r : Nat) : Rat :=
+  if kget U (a + r + q + 1) - kget U (a + r) = 0 then 0
+  else (u - kget U (a + r)) / (kget U (a + r + q + 1) - kget U (a + r)) * spanPiece U u s q (a + r)
 
 /-- `Σ_{i < count} N_{i,p}(u) P_i` with `N` taken from `f` -/
 def curveSum (f : Nat → Rat) : Nat → List V3 → V3
